@@ -44,12 +44,35 @@ def main() -> int:
     if not common.DRIVER.exists():
         ctx.disagreement({}, "model driver could not be built: " + (ctx.proof.get("log") or "")[-400:])
         return ctx.finish()
+    # watchdog: a change that makes the library loop forever must end as a report, not as a check that never returns
+    import signal
+    budget = int(os.environ.get("VERIF_BUDGET_S") or (900 if a.tier == "quick" else 6 * 3600))
+
+    class Overrun(Exception):
+        pass
+
+    def on_alarm(_sig, _frm):
+        raise Overrun()
+    signal.signal(signal.SIGALRM, on_alarm)
+    signal.alarm(budget)
     try:
         mod.run(ctx)
+    except Overrun:
+        ctx.disagreement({"budget_seconds": budget}, f"the {a.tier} run did not finish within {budget} s (a non-terminating evaluation in the library, or a stuck harness): the property is not shown to hold")
     except Exception:
         # a crash of the harness itself is a broken correspondence, not a pass
         ctx.disagreement({"traceback": traceback.format_exc()[-3000:]}, "correspondence harness crashed")
-    return ctx.finish()
+    finally:
+        signal.alarm(0)
+    rc = ctx.finish()
+    # worker processes stuck in a non-terminating evaluation must not outlive the check
+    try:
+        import multiprocessing
+        for ch in multiprocessing.active_children():
+            ch.kill()
+    except Exception:  # noqa: BLE001
+        pass
+    return rc
 
 
 if __name__ == "__main__":
